@@ -65,20 +65,31 @@ Definition leading_zero (s : bytes) : bool :=
 
 Definition is_numeric (s : bytes) : bool := negb (leading_zero s) && num_scan true s.
 
-(* strings.EqualFold(val, word) for an ASCII lower-case word: Unicode simple case folding.
-   For the letters of "true" and "false" the folding orbits are {c, c-32} plus, for 's',
-   U+017F LATIN SMALL LETTER LONG S (UTF-8 C5 BF). *)
+(* equalFoldASCII(val, word) for an ASCII lower-case word (repaired, fixes/C16-bool-long-s.patch):
+   same length and every byte equal after mapping A..Z to a..z.  Nothing outside ASCII folds. *)
+Definition ascii_lower (b : N) : N := if (65 <=? b) && (b <=? 90) then b + 32 else b.
+
 Fixpoint fold_eq (word s : bytes) : bool :=
+  match word, s with
+  | [], [] => true
+  | c :: w, b :: r => (ascii_lower b =? c) && fold_eq w r
+  | _, _ => false
+  end.
+
+(* AS FOUND: strings.EqualFold(val, word), Unicode simple case folding.  For the letters of true
+   and false the folding orbits are {c, c-32} plus, for s, U+017F LATIN SMALL LETTER LONG S
+   (UTF-8 C5 BF): the capture fal<U+017F>e was written as the boolean false. *)
+Fixpoint fold_eq_asfound (word s : bytes) : bool :=
   match word with
   | [] => match s with [] => true | _ => false end
   | c :: w =>
       match s with
       | [] => false
       | b :: r =>
-          if (b =? c) || (b =? c - 32) then fold_eq w r
+          if (b =? c) || (b =? c - 32) then fold_eq_asfound w r
           else if (c =? 115) && (b =? 197) then
             match r with
-            | b2 :: r2 => if b2 =? 191 then fold_eq w r2 else false
+            | b2 :: r2 => if b2 =? 191 then fold_eq_asfound w r2 else false
             | [] => false
             end
           else false
@@ -95,6 +106,12 @@ Definition infer (v : bytes) : jval :=
   if is_numeric v then JNum v
   else if fold_eq w_true v then JBool true
   else if fold_eq w_false v then JBool false
+  else JStr v.
+
+Definition infer_asfound (v : bytes) : jval :=
+  if is_numeric v then JNum v
+  else if fold_eq_asfound w_true v then JBool true
+  else if fold_eq_asfound w_false v then JBool false
   else JStr v.
 
 Definition write_val (j : jval) : bytes :=
@@ -546,7 +563,7 @@ Definition member_ok (text : bytes) (j : jval) : Prop :=
   match j with
   | JStr t => t = text                                           (* the very bytes *)
   | JNum lit => dec_val lit = dec_val text /\ exists v, dec_val text = Some v   (* the same decimal value *)
-  | JBool b => fold_eq (if b then w_true else w_false) text = true  (* true/false up to case folding *)
+  | JBool b => fold_eq (if b then w_true else w_false) text = true  (* true/false up to ASCII case (A..Z = a..z) *)
   end.
 
 (* bytes that may follow a number in an object without being swallowed by the number reader *)
